@@ -20,8 +20,8 @@ func init() {
 	})
 	property(&Property{
 		ID:          "C03",
-		Rules:       []string{"KIND-EXHAUSTIVE", "KIND-VALUE-AGREE", "WKT-TABLE", "BYTES-ALPHABETS", "NAME-RESOLUTION", "FIELDPATH-SINGULAR", "DECODE-THEN-PARAMS", "DESC-ROLE", "DECOMP-AGREE", "B64-BUF", "QUOTE-ESCAPES", "POOL-ESCAPE", "FD-LOCALISER", "QUERY-EVERY-VALUE", "BODY-UNKNOWN-LENGTH", "GZIP-WHOLE-BODY", "PATH-NORMALISE", "CAPTURE-PAIRING", "UNMARSHAL-RESETS"},
-		Decides:     "Decides that the per-kind conversion table is complete and type-correct against protoreflect's Kind/Value contract, that well-known types are listed and unmarshalled into their own type, that the bytes arm reaches all four base64 variants, that names resolve by JSON name then proto name, that field paths only walk singular message fields, that body/query/path resolution uses the request descriptor, that decompression and codec selection follow the request headers, and that parameters are applied after the body. Also: a base64 destination is sized by the encoding that decodes into it; URL text becomes a JSON string only through an escaping quoter. Also: the function that maps a stored field descriptor onto the handling backend's message goes by field number or name, never by declaration position; bytes handed to the handler are not left inside a pooled buffer. Also: every value of every query key becomes a parameter or an error (none is skipped). Also: a request of undeclared length (Content-Length -1) has its body decoded. Also: the request path reaches the matcher (and therefore the captured variable values) only slash-normalised, never cleaned of dot segments.",
+		Rules:       []string{"KIND-EXHAUSTIVE", "KIND-VALUE-AGREE", "WKT-TABLE", "BYTES-ALPHABETS", "NAME-RESOLUTION", "FIELDPATH-SINGULAR", "DECODE-THEN-PARAMS", "DESC-ROLE", "DECOMP-AGREE", "B64-BUF", "QUOTE-ESCAPES", "POOL-ESCAPE", "FD-LOCALISER", "QUERY-EVERY-VALUE", "BODY-UNKNOWN-LENGTH", "GZIP-WHOLE-BODY", "PATH-NORMALISE", "CAPTURE-PAIRING", "UNMARSHAL-RESETS", "PARAM-STABLE-ORDER"},
+		Decides:     "Decides that the per-kind conversion table is complete and type-correct against protoreflect's Kind/Value contract, that well-known types are listed and unmarshalled into their own type, that the bytes arm reaches all four base64 variants, that names resolve by JSON name then proto name, that field paths only walk singular message fields, that body/query/path resolution uses the request descriptor, that decompression and codec selection follow the request headers, and that parameters are applied after the body. Also: a base64 destination is sized by the encoding that decodes into it; URL text becomes a JSON string only through an escaping quoter. Also: the function that maps a stored field descriptor onto the handling backend's message goes by field number or name, never by declaration position; bytes handed to the handler are not left inside a pooled buffer. Also: every value of every query key becomes a parameter or an error (none is skipped). Also: a request of undeclared length (Content-Length -1) has its body decoded. Also: the request path reaches the matcher (and therefore the captured variable values) only slash-normalised, never cleaned of dot segments. Also: the parameter list is never sorted with an unstable sort.",
 		NotDecided:  "that converted values equal the proto3 JSON reading (null, NaN, whitespace, base64 details), the round-trip law itself, codec behaviour.",
 		Assumptions: commonAssumptions,
 	})
@@ -34,21 +34,21 @@ func init() {
 	})
 	property(&Property{
 		ID:          "C05",
-		Rules:       []string{"STATUS-TABLE", "TABLE-GUARD", "TWIRP-TABLE", "ENCODER-CLOSE", "TAIL-FLUSH", "PANIC-REACH-SERVE", "ERR-SAME-STATUS", "GRPC-TRAILER-VALUES", "ESCAPE-SET", "CODEC-LOOKUP-TOTAL", "POOL-RESET", "FWD-ERR-IDENTITY", "STATUS-BLOCK", "WEB-FLUSH-COMMITS", "DISPATCH-PREFIX-ORDER"},
-		Decides:     "Decides the table-shaped and pairing-shaped parts of status fidelity: status tables equal the documented mapping and their guards are exact; the Twirp name table equals the Twirp spec; the base64 stream of gRPC-web-text is terminated; the grpc-message encoder writes its tail; the error encoders contain no reachable panic; code, message and details come from one status value derived from the handler's error and reach the gRPC trailers through the right encoders. Also: a pooled buffer that becomes the gRPC-web trailer frame is Reset after Get. Also: the proxy's error filter sets aside only nil / io.EOF / context.Canceled by identity (a Canceled *status* of the backend is relayed). Also: the gRPC status is written after the headers were flushed on every path, or else nothing is placed in a later block than the status. Also: the protocol dispatch tests the more specific content-type prefix first.",
+		Rules:       []string{"STATUS-TABLE", "TABLE-GUARD", "TWIRP-TABLE", "ENCODER-CLOSE", "TAIL-FLUSH", "PANIC-REACH-SERVE", "ERR-SAME-STATUS", "GRPC-TRAILER-VALUES", "ESCAPE-SET", "CODEC-LOOKUP-TOTAL", "POOL-RESET", "FWD-ERR-IDENTITY", "STATUS-BLOCK", "WEB-FLUSH-COMMITS", "DISPATCH-PREFIX-ORDER", "CONST-INDEX"},
+		Decides:     "Decides the table-shaped and pairing-shaped parts of status fidelity: status tables equal the documented mapping and their guards are exact; the Twirp name table equals the Twirp spec; the base64 stream of gRPC-web-text is terminated; the grpc-message encoder writes its tail; the error encoders contain no reachable panic; code, message and details come from one status value derived from the handler's error and reach the gRPC trailers through the right encoders. Also: a pooled buffer that becomes the gRPC-web trailer frame is Reset after Get. Also: the proxy's error filter sets aside only nil / io.EOF / context.Canceled by identity (a Canceled *status* of the backend is relayed). Also: the gRPC status is written after the headers were flushed on every path, or else nothing is placed in a later block than the status. Also: the protocol dispatch tests the more specific content-type prefix first. Also: constant indexes into strings on request paths sit behind a sufficient length test.",
 		NotDecided:  "encodeGrpcMessage's per-character output beyond 'no input byte is skipped', WebSocket close-frame payload limits, equality of details.",
 		Assumptions: commonAssumptions,
 	})
 	property(&Property{
 		ID:          "C06",
-		Rules:       []string{"ENCODER-CLOSE", "CARRY-OVER", "FRAME-AGREE", "READFULL-EOF", "FWD-CLOSESEND", "COMPRESS-FLAG", "READ-FAIL-NONNIL", "CLOSE-ONCE", "JSON-FRAME-TABLE", "WS-DATA-KINDS", "CLEAN-END-EOF-ONLY", "READ-DATA-FIRST", "CARRY-COUNTED", "POOL-FOREIGN", "SEND-FRAME-FLAG", "UNMARSHAL-RESETS", "EOF-NO-PHANTOM", "DISPATCH-PREFIX-ORDER"},
+		Rules:       []string{"ENCODER-CLOSE", "CARRY-OVER", "FRAME-AGREE", "READFULL-EOF", "FWD-CLOSESEND", "COMPRESS-FLAG", "READ-FAIL-NONNIL", "CLOSE-ONCE", "JSON-FRAME-TABLE", "WS-DATA-KINDS", "CLEAN-END-EOF-ONLY", "READ-DATA-FIRST", "CARRY-COUNTED", "POOL-FOREIGN", "SEND-FRAME-FLAG", "UNMARSHAL-RESETS", "EOF-NO-PHANTOM", "DISPATCH-PREFIX-ORDER", "VARINT-PREFIX"},
 		Decides:     "Decides only three structural necessary conditions of 'no lost byte': the gRPC-web-text byte stream is terminated; bytes a stream codec read past the current message are saved on every path and handed to the next read; the gRPC frame writer and reader (and the gRPC-web trailer frame) agree on header length, offsets and byte order. Also: a proxied half-close is sent only after a clean inbound end; a gRPC message is decompressed iff its own flag byte is set; a failed transport read never yields a nil error. Also: the compressing writer is closed once per message (a second Close returns it to its pool twice and two streams share it). Also: the JSON stream codec's framing decisions - where a message ends - follow JSON's lexical structure (JSON-FRAME-TABLE). Also: the WebSocket stream reads text and binary data frames alike; a read error is taken for a clean end only when it is io.EOF itself. Also: the proto codec never decodes with the Merge option (no merged messages on a reused destination). Also: the end of an HTTP request stream is reported as io.EOF, never as one more (empty) message.",
 		NotDecided:  "and this is most of the property: sequence equality, fragmentation invariance, truncation behaviour, phantom/dropped messages at EOF, WebSocket end-of-stream.",
 		Assumptions: commonAssumptions,
 	})
 	property(&Property{
 		ID:          "C07",
-		Rules:       []string{"PARAM-ORDER", "LAST-WRITER", "DECODE-THEN-PARAMS", "FD-LOCALISER", "PARAM-INDEPENDENT", "CAPTURE-PAIRING"},
+		Rules:       []string{"PARAM-ORDER", "LAST-WRITER", "DECODE-THEN-PARAMS", "FD-LOCALISER", "PARAM-INDEPENDENT", "CAPTURE-PAIRING", "PARAM-STABLE-ORDER"},
 		Decides:     "Decides the precedence between the three input channels for singular fields, which is entirely structural: params.set is last-writer-wins, so the property holds iff path captures are applied after query parameters and after the body; every stream receives the composed list. Also: a path-bound value is written into the field with the stored descriptor's number/name on whichever backend handles the call (FD-LOCALISER). Also: every parameter is written along its own field path from the request message (nothing is carried over from the previous parameter). Also: captures and field paths are counted one per variable node on both sides (addRule and search), so a capture cannot be dropped or shifted when rules share a node.",
 		NotDecided:  "repeated path-bound fields (both channels append); protoreflect's Set itself.",
 		Assumptions: commonAssumptions,
@@ -62,8 +62,8 @@ func init() {
 	})
 	property(&Property{
 		ID:          "C09",
-		Rules:       []string{"PANIC-REACH-SERVE", "COMMAOK-SERVE", "ASSERT-CHECKED", "TABLE-GUARD", "SIGNCONV", "OFFSET-BASE", "FIELDPATH-SINGULAR", "TOKEN-KINDS", "NIL-MAP-WRITE", "STATS-PURE", "SLICE-CAP", "NILABLE-FIELD", "FD-LOCAL", "CODEC-LOOKUP-TOTAL", "NIL-STATE", "B64-BUF", "SUB-LOW", "PICK-CURRENT", "HANDLERS-PRESENCE", "JOIN-EXIT", "LOOP-PROGRESS", "SCAN-INDEX-GUARDED", "SCAN-PROGRESS"},
-		Decides:     "Decides the absence, on every call-graph path from the request entry points, of the enumerated crash constructs: explicit panic, use of a comma-ok result where ok may be false, unjustified single-result type assertions, off-by-one table guards, sign-changing conversions of wire lengths, index-relative-to-wrong-base arithmetic, field paths walking through repeated/map/scalar fields, pattern tokens the matcher panics on, writes through nil maps, stats-only slicing. Also: the state snapshot (nil before the first registration) is only used nil-safely; x[a-b:] needs a >= b; base64 destinations are sized by the decoding encoding. Also: the handler pick indexes a non-empty list (no rand.Intn(0)); readers of the handler table do not take a present-but-empty entry for a registered method. Also: serveGRPC's join of the stream's goroutines cannot wait on a body it has not closed; growcap's fractional loop cannot be entered where its increment is 0. Also: input-consuming loops on request paths shorten their input strictly on every way round.",
+		Rules:       []string{"PANIC-REACH-SERVE", "COMMAOK-SERVE", "ASSERT-CHECKED", "TABLE-GUARD", "SIGNCONV", "OFFSET-BASE", "FIELDPATH-SINGULAR", "TOKEN-KINDS", "NIL-MAP-WRITE", "STATS-PURE", "SLICE-CAP", "NILABLE-FIELD", "FD-LOCAL", "CODEC-LOOKUP-TOTAL", "NIL-STATE", "B64-BUF", "SUB-LOW", "PICK-CURRENT", "HANDLERS-PRESENCE", "JOIN-EXIT", "LOOP-PROGRESS", "SCAN-INDEX-GUARDED", "SCAN-PROGRESS", "CONST-INDEX", "DEFAULT-SCALAR-ONLY"},
+		Decides:     "Decides the absence, on every call-graph path from the request entry points, of the enumerated crash constructs: explicit panic, use of a comma-ok result where ok may be false, unjustified single-result type assertions, off-by-one table guards, sign-changing conversions of wire lengths, index-relative-to-wrong-base arithmetic, field paths walking through repeated/map/scalar fields, pattern tokens the matcher panics on, writes through nil maps, stats-only slicing. Also: the state snapshot (nil before the first registration) is only used nil-safely; x[a-b:] needs a >= b; base64 destinations are sized by the decoding encoding. Also: the handler pick indexes a non-empty list (no rand.Intn(0)); readers of the handler table do not take a present-but-empty entry for a registered method. Also: serveGRPC's join of the stream's goroutines cannot wait on a body it has not closed; growcap's fractional loop cannot be entered where its increment is 0. Also: input-consuming loops on request paths shorten their input strictly on every way round. Also: FieldDescriptor.Default() is only used for singular scalar fields.",
 		NotDecided:  "general slice/index arithmetic, nil dereferences beyond the comma-ok class, termination, resource exhaustion, panics inside dependencies beyond the encoded contracts.",
 		Assumptions: commonAssumptions,
 	})
@@ -76,15 +76,15 @@ func init() {
 	})
 	property(&Property{
 		ID:          "C11",
-		Rules:       []string{"WRITER-PUBLISHES", "ADD-REMOVE-SYMMETRY", "REMOVE-FILTER", "PICK-CURRENT", "COW-6", "STORED-SLICE-REUSE", "FD-LOCAL", "DELRULE-GUARD", "NIL-STATE", "DESC-BY-NAME", "COW-2", "HANDLERS-PRESENCE", "CONN-OWNS-ALL", "COW-5", "FDHASH-STREAMED", "DELRULE-TOTAL"},
-		Decides:     "Decides that every operation that changes the registration set publishes it, that removal empties what registration fills and keeps exactly the handlers of other connections, that dropping an unknown connection changes nothing, and that dispatch reads one current snapshot and answers Unimplemented exactly when no handler is left. Also: DropConn/registration never touch a nil snapshot; 'same method' is decided on full names, never on descriptor identity. Also: writers load the snapshot under the lock (no lost registration or drop); presence of a key in the handler table is trusted only if removal deletes emptied entries. Also: a connection leaves state.conns only through removeHandler, together with its handlers. Also: the handler list recorded for a connection covers every handler installed for it (never re-made inside the loops). Also: the clone a writer works on shares no mutable routing memory with the published snapshot (struct copies included), so a registration that fails half-way leaves the live routes as they were. Also: the digest that decides 'connection unchanged' is one streaming hash over all received file descriptors. Also: removing a method removes every rule of it (delRule visits every child and clears the kind-'*' slot), so a later re-registration re-creates all bindings.",
+		Rules:       []string{"WRITER-PUBLISHES", "ADD-REMOVE-SYMMETRY", "REMOVE-FILTER", "PICK-CURRENT", "COW-6", "STORED-SLICE-REUSE", "FD-LOCAL", "DELRULE-GUARD", "NIL-STATE", "DESC-BY-NAME", "COW-2", "HANDLERS-PRESENCE", "CONN-OWNS-ALL", "COW-5", "FDHASH-STREAMED", "DELRULE-TOTAL", "STATE-SLICE-APPEND"},
+		Decides:     "Decides that every operation that changes the registration set publishes it, that removal empties what registration fills and keeps exactly the handlers of other connections, that dropping an unknown connection changes nothing, and that dispatch reads one current snapshot and answers Unimplemented exactly when no handler is left. Also: DropConn/registration never touch a nil snapshot; 'same method' is decided on full names, never on descriptor identity. Also: writers load the snapshot under the lock (no lost registration or drop); presence of a key in the handler table is trusted only if removal deletes emptied entries. Also: a connection leaves state.conns only through removeHandler, together with its handlers. Also: the handler list recorded for a connection covers every handler installed for it (never re-made inside the loops). Also: the clone a writer works on shares no mutable routing memory with the published snapshot (struct copies included), so a registration that fails half-way leaves the live routes as they were. Also: the digest that decides 'connection unchanged' is one streaming hash over all received file descriptors. Also: removing a method removes every rule of it (delRule visits every child and clears the kind-'*' slot), so a later re-registration re-creates all bindings. Also: dispatch never edits the handler lists of the published snapshot in place.",
 		NotDecided:  "behaviour over histories (stale routes answering Unimplemented, which backend answers).",
 		Assumptions: commonAssumptions,
 	})
 	property(&Property{
 		ID:          "C12",
-		Rules:       []string{"COW-1", "COW-2", "COW-3", "COW-4", "COW-5", "COW-6", "COW-7", "OPTS-RO", "NO-UNSAFE", "STATE-SLICE-APPEND"},
-		Decides:     "Decides the copy-on-write discipline completely: published snapshots are never written (readers are effect-free, clones share nothing that is mutated in place), writers are serialised by Mux.mu, publication is one atomic store of a private clone of the current snapshot, each request resolves against one snapshot, failures publish nothing. Under Go's memory model this implies no torn or in-progress routing state is observable and no data race on routing state exists, for every interleaving. Also: clone reads every field of a non-nil receiver on every path to a return.",
+		Rules:       []string{"COW-1", "COW-2", "COW-3", "COW-4", "COW-5", "COW-6", "COW-7", "OPTS-RO", "NO-UNSAFE", "STATE-SLICE-APPEND", "MUX-SIDE-STATE"},
+		Decides:     "Decides the copy-on-write discipline completely: published snapshots are never written (readers are effect-free, clones share nothing that is mutated in place), writers are serialised by Mux.mu, publication is one atomic store of a private clone of the current snapshot, each request resolves against one snapshot, failures publish nothing. Under Go's memory model this implies no torn or in-progress routing state is observable and no data race on routing state exists, for every interleaving. Also: clone reads every field of a non-nil receiver on every path to a return. Also: no registration state is kept in the Mux outside the snapshot before a step that can fail.",
 		NotDecided:  "liveness ('requests keep succeeding'), races outside routing state (C13).",
 		Assumptions: commonAssumptions,
 	})
@@ -111,15 +111,15 @@ func init() {
 	})
 	property(&Property{
 		ID:          "C16",
-		Rules:       []string{"PANIC-REACH-REG", "COMMAOK-REG", "TOKEN-KINDS", "COW-7", "COW-3", "COW-5", "SLOT-CHECK", "FIELDPATH-SINGULAR", "ADDITIONAL-BINDINGS", "NIL-STATE", "DESC-BY-NAME", "STORED-SLICE-REUSE", "TOKEN-WIDTH", "BACKTRACK", "LITERAL-FIRST", "TOKEN-LITERAL-TEXT", "COW-2"},
-		Decides:     "Decides the 'rejects ... with an error (never a panic) and leaves previously registered routes intact' half: no panic or unchecked comma-ok use is reachable from the registration roots, pattern tokens are validated, a failed registration publishes nothing and works on a private clone, a binding slot is written only after the conflict check, body/response_body selectors must name singular message fields, nested additional bindings are rejected before recursion. Also: registration on an empty Mux never dereferences the nil snapshot; re-registration of the same method from another descriptor instance is recognised by name. Also: a token or key slice kept by the trie (addVariable) is not re-used as an append buffer for the next variable of the template. Also: fixed-text tokens of the template lexer are exactly as wide as their text ('***' is not '**'). Also: the matcher shape rules that make every instance of an accepted template route (BACKTRACK, LITERAL-FIRST). Also: every writer holds Mux.mu from its snapshot load to its publication, so an accepted registration is not overwritten by a concurrent one.",
+		Rules:       []string{"PANIC-REACH-REG", "COMMAOK-REG", "TOKEN-KINDS", "COW-7", "COW-3", "COW-5", "SLOT-CHECK", "FIELDPATH-SINGULAR", "ADDITIONAL-BINDINGS", "NIL-STATE", "DESC-BY-NAME", "STORED-SLICE-REUSE", "TOKEN-WIDTH", "BACKTRACK", "LITERAL-FIRST", "TOKEN-LITERAL-TEXT", "COW-2", "MUX-SIDE-STATE", "SEL-KEY"},
+		Decides:     "Decides the 'rejects ... with an error (never a panic) and leaves previously registered routes intact' half: no panic or unchecked comma-ok use is reachable from the registration roots, pattern tokens are validated, a failed registration publishes nothing and works on a private clone, a binding slot is written only after the conflict check, body/response_body selectors must name singular message fields, nested additional bindings are rejected before recursion. Also: registration on an empty Mux never dereferences the nil snapshot; re-registration of the same method from another descriptor instance is recognised by name. Also: a token or key slice kept by the trie (addVariable) is not re-used as an append buffer for the next variable of the template. Also: fixed-text tokens of the template lexer are exactly as wide as their text ('***' is not '**'). Also: the matcher shape rules that make every instance of an accepted template route (BACKTRACK, LITERAL-FIRST). Also: every writer holds Mux.mu from its snapshot load to its publication, so an accepted registration is not overwritten by a concurrent one. Also: every successful registration passes the lookup and binding of the method's configured rules (a later backend's rules are validated too).",
 		NotDecided:  "the 'accepts every well-formed template' half (grammar conformance is value-level: e.g. one-letter literals are rejected today).",
 		Assumptions: commonAssumptions,
 	})
 	property(&Property{
 		ID:          "C17",
-		Rules:       []string{"LIMIT-IMPL", "LIMIT-STRICT", "SIGNCONV", "COMMAOK-SERVE", "READFULL-EOF", "SLICE-CAP", "READ-FAIL-NONNIL", "JSON-FRAME-TABLE", "LOOP-PROGRESS", "SCAN-INDEX-GUARDED", "READ-DATA-FIRST", "CARRY-COUNTED", "LIMIT-RETURN-BOUND", "EOF-NO-PHANTOM"},
-		Decides:     "Decides the limit-safe half: every in-repo ReadNext compares against its limit before it can return a message, strictly, and in a domain where the decoded length cannot wrap. Also: a failed transport read in RecvMsg returns a certainly non-nil error. Also: the JSON codec's scanner, as a transition table read off its loop body, agrees with JSON's lexical structure on every transition up to brace depth 4 (string start/end, backslash escapes, braces inside strings, message end exactly at the closing brace of depth 0, refusal of a surplus closing brace) and depends on nothing but its state and the current byte. Also: growcap's x += x/4 loop is entered only with x >= 4.",
+		Rules:       []string{"LIMIT-IMPL", "LIMIT-STRICT", "SIGNCONV", "COMMAOK-SERVE", "READFULL-EOF", "SLICE-CAP", "READ-FAIL-NONNIL", "JSON-FRAME-TABLE", "LOOP-PROGRESS", "SCAN-INDEX-GUARDED", "READ-DATA-FIRST", "CARRY-COUNTED", "LIMIT-RETURN-BOUND", "EOF-NO-PHANTOM", "VARINT-PREFIX"},
+		Decides:     "Decides the limit-safe half: every in-repo ReadNext compares against its limit before it can return a message, strictly, and in a domain where the decoded length cannot wrap. Also: a failed transport read in RecvMsg returns a certainly non-nil error. Also: the JSON codec's scanner, as a transition table read off its loop body, agrees with JSON's lexical structure on every transition up to brace depth 4 (string start/end, backslash escapes, braces inside strings, message end exactly at the closing brace of depth 0, refusal of a surplus closing brace) and depends on nothing but its state and the current byte. Also: growcap's x += x/4 loop is entered only with x >= 4. Also: the proto stream writer's length prefix is a varint for every length (a single byte only below 128).",
 		NotDecided:  "invariance under where the reader splits the bytes (refill boundaries, carry-over exactness; the table rule assumes the current byte is buffered), the proto codec's varint handling beyond the limit/width checks, a JSON scanner that consumes more than one byte per iteration (reported undecided).",
 		Assumptions: commonAssumptions,
 	})
